@@ -16,7 +16,10 @@
 //	F. (sentinel.go) shared long-lived error values of every kind the library treats specially, returned by several fields
 //	   at different paths across requests: the probe's bytes do not depend on what failed before, the values are unchanged;
 //	G. (sharedvars.go) every request with variables sent repeatedly with ONE shared variables map object: the map is left
-//	   deep-equal to its snapshot and the bytes equal those answered with a private copy.
+//	   deep-equal to its snapshot and the bytes equal those answered with a private copy;
+//	H. (datavaried.go) one (document, variables) issued with DIFFERENT ROOT VALUES (runtime types of abstract fields, nulls,
+//	   lists mixing types all come from the root value) through one shared PlanCache / one plan prepared once: every answer
+//	   equals graphql.Do of the same (document, variables, root value) on a separately built schema.
 //
 // Observables: json.Marshal of the *graphql.Result (bytes), json.Marshal of ValidateDocument(...).Errors (bytes), the
 // first result of a subscription. All must be byte-identical across A, B and C. There is no Lean driver: the
@@ -541,9 +544,24 @@ func main() {
 			DumpBefore           string      `json:"dump_before"`
 			SentinelKind         string      `json:"sentinel_kind"`
 			VariablesBefore      interface{} `json:"variables_before"`
+			DataVaried           *dvScenario `json:"dataVaried"`
 		}
 		if err := hx.LoadReplay(run.ReplayIn, &rp); err != nil {
 			run.CheckError("cannot load replay: " + err.Error())
+			run.Finish()
+			return
+		}
+		if rp.DataVaried != nil {
+			// replay of a phase-H scenario: fresh schemas, fresh cache and plans, the recorded requests in order
+			st := &dvStats{}
+			at, want, got, err := runDataVaried(rp.DataVaried, st)
+			run.Case("replay", true, nil)
+			if err != nil {
+				run.CheckError("phase H schema: " + err.Error())
+			} else if at >= 0 {
+				dvReport(run, rp.DataVaried, at, want, got)
+			}
+			run.Res.Evaluations = st.executions
 			run.Finish()
 			return
 		}
@@ -731,6 +749,7 @@ func main() {
 		eExec += phaseNested(run)
 		eExec += phaseSentinels(run)
 		eExec += phaseSharedVars(run, specs, cases, first)
+		eExec += phaseDataVaried(run)
 	}
 
 	// ---- C. compare what the fresh processes (started before phase A) observed
@@ -775,7 +794,7 @@ func main() {
 		key := fmt.Sprintf("%s|%s|%x|%s", specs[c.Schema].Name, c.Mode, h[:8], c.Op)
 		run.Case(key, len(o.Do) > 2 && class != "fault", map[string]interface{}{"id": c.ID, "query": c.Query[:min(len(c.Query), 300)], "result_class": class, "do": o.Do[:min(len(o.Do), 300)]})
 	}
-	run.Res.Rule = fmt.Sprintf("a case is one (schema, resolver-world mode, request); it counts as non-trivial when the request completed with data or errors; every case was executed %d× on one shared schema value interleaved with all others (in turn graphql.Do, PlanCache.Get+ExecutePlan, and re-execution of one prepared plan), %d× on freshly built schemas in the same process and once in each of %d fresh processes; both json.Marshal(result) and json.Marshal(ValidateDocument(...).Errors) must be byte-identical throughout; distinctness by (schema, mode, query, operation); phase D: a sequence = a probe request answered through one shared PlanCache after 1-6 near-miss requests (exactly one default value / literal / directive / alias / argument order / operation name / fragment body changed), every probe answer byte-identical to graphql.Do's; phase E: schema dump unchanged by all requests, data request unchanged by an interposed introspection request, outer request unchanged by a nested request issued from its own resolver; phase F: a request failing with a shared sentinel error answers the same after other requests failed with that sentinel elsewhere, and the sentinel values are unchanged; phase G: requests re-sent with one shared variables map leave it unmodified and answer as with a private copy", reps, freshReps, procs)
+	run.Res.Rule = fmt.Sprintf("a case is one (schema, resolver-world mode, request); it counts as non-trivial when the request completed with data or errors; every case was executed %d× on one shared schema value interleaved with all others (in turn graphql.Do, PlanCache.Get+ExecutePlan, and re-execution of one prepared plan), %d× on freshly built schemas in the same process and once in each of %d fresh processes; both json.Marshal(result) and json.Marshal(ValidateDocument(...).Errors) must be byte-identical throughout; distinctness by (schema, mode, query, operation); phase D: a sequence = a probe request answered through one shared PlanCache after 1-6 near-miss requests (exactly one default value / literal / directive / alias / argument order / operation name / fragment body changed), every probe answer byte-identical to graphql.Do's; phase E: schema dump unchanged by all requests, data request unchanged by an interposed introspection request, outer request unchanged by a nested request issued from its own resolver; phase F: a request failing with a shared sentinel error answers the same after other requests failed with that sentinel elsewhere, and the sentinel values are unchanged; phase G: requests re-sent with one shared variables map leave it unmodified and answer as with a private copy; phase H: a scenario = requests (document, variables, ROOT VALUE) over a schema that takes all data and runtime types from the root value, served in order through one shared PlanCache / one plan prepared once per document, root values alternating the runtime types of abstract fields (also nulls, lists mixing types), documents merging one response key from fragments on the abstract type and inline fragments on concrete types with different sub-selections; every answer byte-identical to graphql.Do of the same (document, variables, root value) on a separately built schema; non-trivial when one plan met two different runtime-type signatures", reps, freshReps, procs)
 	run.Res.Evaluations = len(cases)*(reps+freshReps+procs) + ist.executions + eExec // every execution of the real code is compared
 	run.Res.Extra["interleave_sequences"] = ist.probes
 	run.Res.Extra["interleave_executions"] = ist.executions
